@@ -4,7 +4,8 @@
 (* the standard, as a pure function of the *preprocessed* input (no CR),   *)
 (* a start configuration and the sink's replies:                           *)
 (*   cfg = [state, last (<<>> or <<name>>), cdata (BOOLEAN),               *)
-(*          replies (sequence of [k, name, r])]                            *)
+(*          replies (sequence of [k, name, r]),                            *)
+(*          inject (strings a paused script writes, one per "script" reply)]*)
 (* State names are those of html5ever's `states::State` (parameterised     *)
 (* states flattened with a dot) so that start states can be passed through *)
 (* unchanged; the comment on each arm gives the WHATWG section.            *)
@@ -40,7 +41,7 @@ CharRefStates == {"Data", "RawData.Rcdata", "AttributeValue.DoubleQuoted", "Attr
 AttrValueStates == {"AttributeValue.DoubleQuoted", "AttributeValue.SingleQuoted", "AttributeValue.Unquoted"}
 
 InitTok(cfg) ==
-    [st |-> cfg.state, toks |-> <<>>, pos |-> 0, cr |-> FALSE,
+    [st |-> cfg.state, toks |-> <<>>, pos |-> 0, cr |-> FALSE, splice |-> FALSE, ninj |-> 0,
      tk |-> "start", tn |-> <<>>, ta |-> <<>>, an |-> <<>>, av |-> <<>>, hasAttr |-> FALSE,
      sc |-> FALSE, dup |-> FALSE,
      cm |-> <<>>, dn |-> <<>>, dp |-> <<>>, ds |-> <<>>, fq |-> FALSE,
@@ -94,6 +95,7 @@ EmitTag(s, cfg) ==
     [s1 EXCEPT !.toks = Append(@, t),
                !.last = IF s1.tk = "start" THEN <<s1.tn>> ELSE @,
                !.st = StateAfterReply(ReplyFor(cfg, s1.tk, s1.tn)),
+               !.splice = (ReplyFor(cfg, s1.tk, s1.tn) = "script"),   \* the parser pauses here (13.2.6.4.8)
                !.tn = <<>>, !.ta = <<>>, !.sc = FALSE, !.dup = FALSE]
 
 EmitComment(s) == [s EXCEPT !.toks = Append(@, [k |-> "comment", s |-> s.cm, at |-> s.pos]), !.cm = <<>>]
@@ -473,7 +475,13 @@ Run(inp, s0, i, cfg) ==
     ELSE IF s.st = "AfterDoctypeName" /\ ~IsWs(c) /\ c # GT /\ MatchCI(inp, i, S_system)
         THEN Run(inp, To(s, "AfterDoctypeKeyword.System"), i + 6, cfg)
     ELSE LET s1 == Step(s, c, cfg) IN
-         IF s1.cr THEN                                              \* 13.2.5.72-80: '&' met in a state with references
+         IF s1.splice THEN
+             \* script pause right after this tag: text written by the script (document.write) is
+             \* inserted at the insertion point, i.e. immediately after the end tag just consumed
+             LET k == s1.ninj + 1
+                 inj == IF k <= Len(cfg.inject) THEN cfg.inject[k] ELSE <<>> IN
+             Run(Take(inp, i) \o inj \o Drop(inp, i), [s1 EXCEPT !.splice = FALSE, !.ninj = k], i + 1, cfg)
+         ELSE IF s1.cr THEN                                              \* 13.2.5.72-80: '&' met in a state with references
              LET inAttr == s1.st \in AttrValueStates
                  r == CharRefAt(inp, i + 1, inAttr)
                  s2 == [s1 EXCEPT !.cr = FALSE] IN
